@@ -228,6 +228,12 @@ func (w *Writer) Delete(bs []byte) (success bool) {
 
 // Delete2 is same as Delete(). Additionally returns the deleted item's node
 func (w *Writer) Delete2(bs []byte) (n *skiplist.Node, success bool) {
+	// Hold an accessor token across lookup and delete: the node found must not
+	// be reclaimed (by a concurrent delete of the same key) before it is used.
+	barrier := w.store.GetAccesBarrier()
+	token := barrier.Acquire()
+	defer barrier.Release(token)
+
 	if n := w.GetNode(bs); n != nil {
 		verifPoint(VpDelete2Found, unsafe.Pointer(n))
 		return n, w.DeleteNode(n)
@@ -246,21 +252,25 @@ func (w *Writer) DeleteNode(x *skiplist.Node) (success bool) {
 	}()
 
 	verifPoint(VpDelNodeEntry, unsafe.Pointer(x))
-	x.SetLink(nil)
 	sn := w.GetCurrSn()
 	gotItem := (*Item)(x.Item())
 	if gotItem.bornSn == sn {
 		success = w.store.DeleteNode(x, w.insCmp, w.buf, &w.slSts1)
 
-		barrier := w.store.GetAccesBarrier()
-		verifPoint(VpDelNodeBeforeFlush, unsafe.Pointer(x))
-		barrier.FlushSession(unsafe.Pointer(x))
+		// Only the caller that won the delete owns the node
+		if success {
+			x.SetLink(nil)
+			barrier := w.store.GetAccesBarrier()
+			verifPoint(VpDelNodeBeforeFlush, unsafe.Pointer(x))
+			barrier.FlushSession(unsafe.Pointer(x))
+		}
 		return
 	}
 
 	verifPoint(VpDelNodeBeforeCAS, unsafe.Pointer(x))
 	success = atomic.CompareAndSwapUint32(&gotItem.deadSn, 0, sn)
 	if success {
+		x.SetLink(nil)
 		if w.gctail == nil {
 			w.gctail = x
 			w.gchead = w.gctail
